@@ -1,12 +1,12 @@
-JOBS = [
- dict(name="errq.SCPI_ResultError.small", props=["C18", "C01"], kind="B",
-      bound="limit lowered from 255 to 12 (redefined in the harness), text <= 7 bytes over {a, \"} at every position, 3 codes, with/without text; unwinding assertions on",
-      harness="h_errq.c", entry="h_result_error", contracts=["common.h"], defines=["LIM=12", "TXT=7"], loops=False,
-      cbmc_flags=["--unwind", "26", "--unwinding-assertions"], timeout=3000, cost=60, mem_gb=24,
-      what="real SCPI_ResultError: escaping, limit, late cut, prefix property, item accounting"),
- dict(name="errq.SCPI_ResultError.bounded", tier="thorough", props=["C18", "C01"], kind="B",
+JOBS = []
+for sel in (0, 1, 2):
+    JOBS.append(dict(name="errq.SCPI_ResultError.small.c%d" % sel, props=["C18", "C01"], kind="B",
+      bound="limit lowered from 255 to 10 (redefined in the harness), text <= 5 bytes over {a, \"} at every position, code %s, with/without text; unwinding assertions on" % ("0 'No error'", "1234 (fallback description)", "-350 'Queue overflow'")[sel],
+      harness="h_errq.c", entry="h_result_error", contracts=["common.h"], defines=["LIM=10", "TXT=5", "CODESEL=%d" % sel], loops=False,
+      cbmc_flags=["--unwind", "22", "--unwinding-assertions"], timeout=1500, cost=30, mem_gb=12,
+      what="real SCPI_ResultError: escaping, limit, late cut, prefix property, item accounting"))
+JOBS.append(dict(name="errq.SCPI_ResultError.bounded", tier="thorough", props=["C18", "C01"], kind="B",
       bound="limit lowered from 255 to 20 (redefined in the harness), text <= 14 bytes over {a, \"} at every position, 3 codes, with/without text; unwinding assertions on",
       harness="h_errq.c", entry="h_result_error", contracts=["common.h"], defines=["LIM=20", "TXT=14"], loops=False,
-      cbmc_flags=["--unwind", "42", "--unwinding-assertions"], timeout=3000, cost=60, mem_gb=24,
-      what="real SCPI_ResultError: escaping, limit, late cut, prefix property, item accounting"),
-]
+      cbmc_flags=["--unwind", "42", "--unwinding-assertions"], timeout=6000, cost=60, mem_gb=24,
+      what="real SCPI_ResultError: escaping, limit, late cut, prefix property, item accounting"))
